@@ -40,7 +40,12 @@ def weight_alternatives(fl, expr, at, depth=0):
             if isinstance(x, ast.Name) and x.id in fl.rd.names and depth < 4:
                 subs = []
                 for d in fl.def_exprs(x.id, at):
-                    if d[0] == 'assign':
+                    if d[0] == 'assign' and any(isinstance(y, ast.Name) and y.id == x.id for y in ast.walk(d[1])):
+                        # factor = factor * 2 : an update written as plain assignment
+                        g = tuple(if_chain_preds(fl.cfg, d[2]))
+                        for a in weight_alternatives(fl, d[1], d[2], depth + 1):
+                            subs.append((a[0], a[1], a[2], a[3] + g))
+                    elif d[0] == 'assign':
                         g = tuple(if_chain_preds(fl.cfg, d[2]))
                         for a in weight_alternatives(fl, d[1], d[2], depth + 1):
                             subs.append((a[0], a[1], a[2], a[3] + g))
@@ -139,7 +144,12 @@ def check_weights(ctx, ck):
     f, fl, store, st, jd, _idx = find_diag_store(ctx)
     def is_imp(tx):
         return '.impedance(' in tx
-    l_alts = split_weight(weight_alternatives(fl, st.value, store.id), is_imp)
+    l_alts = split_weight(weight_alternatives(fl, fl.inline(st.value, store.id, depth=1)
+                                              if any(isinstance(x_, ast.Name) and fl.single_def(x_.id, store.id)
+                                                     and isinstance(fl.single_def(x_.id, store.id)[0], ast.Call)
+                                                     for x_ in ast.walk(st.value) if isinstance(x_, ast.Name)
+                                                     and x_.id in fl.rd.names)
+                                              else st.value, store.id), is_imp)
     g = m.func(RHS)
     gfl = ctx.flow(g)
     rstores = [n for n in gfl.cfg.nodes if n.kind == 'stmt' and isinstance(n.stmt, (ast.Assign, ast.AugAssign))
@@ -178,8 +188,10 @@ def check_weights(ctx, ck):
               'into the following elements' % sorted({b[0] for b in bad_}))
 
     def summarize(alts):
-        base = [a for a in alts if not a[3]]
-        dbl = [a for a in alts if a[3]]
+        """(base alternatives, doubled alternatives): the doubled one carries a guard whose taken
+        branch tests `.ground.any()`; everything else is the base weight"""
+        dbl = [a for a in alts if any(b and '.ground.any()' in t for t, b in a[3])]
+        base = [a for a in alts if a not in dbl]
         return base, dbl
     lb, ld = summarize(l_alts)
     rb, rd = summarize(r_alts)
@@ -224,7 +236,7 @@ def check_weights(ctx, ck):
     else:
         ck.ob('R-SIB.weight', 'base-weight', False, f.loc(st), why)
     # the payload is l.impedance(self.f, pulse)
-    imp_calls = [c for c in ast.walk(st.value) if isinstance(c, ast.Call) and
+    imp_calls = [c for c in ast.walk(fl.inline(st.value, store.id)) if isinstance(c, ast.Call) and
                  isinstance(c.func, ast.Attribute) and c.func.attr == 'impedance']
     ok = len(imp_calls) == 1 and [norm(a) for a in imp_calls[0].args] == ['self.f', norm(jd[0].value) if jd else '?']
     ck.ob('R-SIB.weight', 'payload', ok, f.loc(st), 'adds %s' % (norm(imp_calls[0]) if imp_calls else '?'))
@@ -399,6 +411,93 @@ def run(ctx, ck):
     ck.ob('R-DEP.skin', si.qual + '|reads', 'conductivity' in reads and 'resistivity' not in reads, si.loc(),
           'impedance reads load attributes %s' % sorted(reads))
 
+    # ---------------------------------------------------------------- closed-form distributed loads
+    # compared as rational functions over role-named atoms (robust to renaming and reordering)
+    from ..poly import poly_roles, roles_of_text, cancel
+    ck.rule('R-FORM.distributed', 'skin-effect / insulation per-length impedance equals the documented closed form')
+
+    def local_env(func, upto=None):
+        env = {}
+        for s_ in walk_no_nested(func.node):
+            if isinstance(s_, ast.Assign) and len(s_.targets) == 1 and isinstance(s_.targets[0], ast.Name):
+                nm = s_.targets[0].id
+                if nm in env:
+                    env[nm] = None          # several definitions: keep opaque
+                else:
+                    env[nm] = s_.value
+        return {k: v for k, v in env.items() if v is not None}
+
+    def same(got_expr, env, want_text, key, func, node):
+        try:
+            got = cancel(poly_roles(got_expr, env))
+            want = roles_of_text(want_text)
+            ok = cancel(got - want).t == {}
+            why = '%s == %s' % (norm(got_expr)[:60], want_text) if ok else \
+                '%s evaluates to %r, documented form %s is %r' % (norm(got_expr)[:50], got, want_text, want)
+        except (ValueError, ZeroDivisionError) as e_:
+            ok, why = False, 'expression not understood: %s' % e_
+        ck.ob('R-FORM.distributed', key, ok, func.loc(node), why)
+    se_i = m.func('mininec.Skin_Effect_Load.impedance')
+    env = local_env(se_i)
+    zi = [s_ for s_ in walk_no_nested(se_i.node) if isinstance(s_, ast.Assign) and
+          isinstance(s_.targets[0], ast.Name) and s_.targets[0].id == 'zint']
+    ks = [s_ for s_ in walk_no_nested(se_i.node) if isinstance(s_, ast.Assign) and
+          isinstance(s_.targets[0], ast.Name) and s_.targets[0].id == 'k']
+    if len(zi) != 1 or len(ks) != 1:
+        raise AnalysisError('skin effect: zint / k definitions not found')
+    env_k = {k_: v for k_, v in env.items() if k_ in ('omg', 'fhz')}
+    # zint = k / (2 pi a sigma) * b   (b = J0(ka)/J1(ka) or its large-argument limit)
+    same(zi[0].value, {}, 'k / (2 * pi * r_orig * conductivity) * b', se_i.qual + '|zint', se_i, zi[0])
+    kv = ks[0].value
+    ok = isinstance(kv, ast.Call) and (dotted(kv.func) or '').endswith('sqrt') and len(kv.args) == 1
+    if ok:
+        same(kv.args[0], env_k, '-1j * (2 * pi * (f * 1e6)) * mu_0 * conductivity', se_i.qual + '|k^2', se_i, ks[0])
+    else:
+        ck.ob('R-FORM.distributed', se_i.qual + '|k^2', False, se_i.loc(ks[0]), 'k is not a square root')
+    bs = [s_ for s_ in walk_no_nested(se_i.node) if isinstance(s_, ast.Assign) and
+          isinstance(s_.targets[0], ast.Name) and s_.targets[0].id == 'b']
+    forms = sorted(norm(s_.value) for s_ in bs)
+    ok = forms == ['1j', 'jv(0, kr) / jv(1, kr)']
+    if ok:
+        krd = env.get('kr')
+        ok = krd is not None and cancel(poly_roles(krd, {}) - roles_of_text('k * r_orig')).t == {}
+    ck.ob('R-FORM.distributed', se_i.qual + '|bessel-ratio', ok, se_i.loc(bs[0] if bs else None),
+          'b = J0(k a) / J1(k a), asymptote 1j: %s' % forms)
+    acc = [s_ for s_ in walk_no_nested(se_i.node) if isinstance(s_, ast.AugAssign) and isinstance(s_.op, ast.Add)]
+    ok = len(acc) == 1
+    if ok:
+        # x += l * zint (the cached pair's value); l = | dvecs(i - 0.5)[0] - dvecs(...)[1] |
+        pr = product_of(acc[0].value)
+        nn, dd = pr.texts()
+        ok = len(nn) == 2 and 'l' in nn and any('zint' in t for t in nn) and not dd and pr.coef == 1
+        ld_ = env.get('l')
+        dv_ = env.get('dv')
+        ok = ok and ld_ is not None and norm(ld_) == 'np.linalg.norm(dv[0] - dv[1])' and \
+            dv_ is not None and norm(dv_) == 'pulse.dvecs(i - 0.5)'
+    ck.ob('R-FORM.distributed', se_i.qual + '|length-of-half', ok, se_i.loc(acc[0] if acc else None),
+          'adds (length of the half segment on object i) * zint of that object')
+    in_i = m.func('mininec.Insulation_Load.impedance')
+    zs = [s_ for s_ in walk_no_nested(in_i.node) if isinstance(s_, ast.Assign) and
+          isinstance(s_.targets[0], ast.Attribute) and s_.targets[0].attr == 'zins']
+    if len(zs) != 1:
+        raise AnalysisError('insulation: zins definition not found')
+    same(zs[0].value, {}, 'mu_0 * (epsilon_r - 1) / epsilon_r * log(radius / r_orig) / (2 * pi)',
+         in_i.qual + '|zins', in_i, zs[0])
+    acc = [s_ for s_ in walk_no_nested(in_i.node) if isinstance(s_, ast.AugAssign) and isinstance(s_.op, ast.Add)]
+    if len(acc) == 1:
+        env_i = {k_: v for k_, v in local_env(in_i).items() if k_ in ('omg', 'fhz')}
+        same(acc[0].value, env_i, 'zins * (2 * pi * (f * 1e6)) * 1j * (seg_len / 2)', in_i.qual + '|contribution',
+             in_i, acc[0])
+    else:
+        ck.ob('R-FORM.distributed', in_i.qual + '|contribution', False, in_i.loc(), '%d accumulations' % len(acc))
+    gr = m.func('mininec.Geobj.r')
+    rets = [r_ for r_ in walk_no_nested(gr.node) if isinstance(r_, ast.Return)]
+    env_r = local_env(gr)
+    forms = sorted(norm(ctx.flow(gr).inline(r_.value, ctx.flow(gr).node_id_of(r_))) for r_ in rets)
+    ok = forms == sorted(['self._r', 'self.coat_load.radius * (self._r / self.coat_load.radius) ** (1 / self.coat_load.epsilon_r)'])
+    ck.ob('R-FORM.distributed', gr.qual + '|equivalent-radius', ok, gr.loc(),
+          'equivalent radius b * (a / b) ** (1 / eps_r) with insulation, a otherwise: %s' % forms)
+
     # ---------------------------------------------------------------- D5
     rl = m.func('mininec.Mininec.register_load')
     rfl2 = ctx.flow(rl)
@@ -413,7 +512,7 @@ def run(ctx, ck):
             ck.ob('R-EXH.attach', '%s|all-pulses-loop#%d' % (rl.qual, n_loops), (mn, mx) == (1, 1) and allp,
                   rl.loc(l), 'add_pulse once per pulse of pulse_iter() (ends included)')
             n_loops += 1
-    ck.floor('attach-all loops', n_loops, 2)
+    ck.floor('attach-all loops', n_loops, 1)
     pi = m.func('mininec.Geobj.pulse_iter')
     d = pi.defaults().get('yield_ends')
     ok = isinstance(d, ast.Constant) and d.value is True and 'self.pulses' in ' '.join(norm(l.iter) for l in loops_in(pi.node))
